@@ -58,6 +58,18 @@ CLAIMED = {
             "evaluator's model of derived PartialEq/Clone on field-less enums. Nested expressions are covered "
             "because each phase applies the same cell function per node (structural induction not mechanised).",
             "DESIGN.md §4 C07"),
+    "C04": ("abstract interpretation of the arithmetic helpers' MIR over the sign lattice (exhaustive over sign "
+            "cases), sibling-table agreement, panic-site inventory, error-constant check",
+            "For every helper the emitter can reference, every int/float instantiation and every sign combination: a "
+            "zero divisor reaches raise_zero_division before any / or %; otherwise the helper returns r|r+b resp. "
+            "q|q-1 with the correction applied iff r != 0 and sign(r) != sign(b) (Python's definition, valid for ALL "
+            "i64/f64 operands because the kernels branch only on comparisons with zero); float // is floor(x/y); "
+            "/ is x/y after promotion. Both kernel copies are tabulated and agree. Error kind/text constants equal "
+            "the documented message. Other panic sites in the closure: none besides rustc's own division asserts.",
+            "Assumes IEEE/Rust semantics of / % floor (remainder has the dividend's sign or is zero); q-1 "
+            "non-overflow argued by hand; i64::MIN // -1 excluded by the property. Floating-point magnitude claims "
+            "(|a % b| < |b|) rest on Rust's fmod and are not re-derived.",
+            "DESIGN.md §4 C04"),
 }
 
 NOT_APPLICABLE = {
